@@ -1,6 +1,8 @@
 import Driver.Loop
 import Driver.SdlCodec
 import PyGqlModel.SdlExtend
+import PyGqlModel.SdlAdditional
+import PyGqlModel.SdlInProgress
 open PyGql PyGql.Sdl
 
 def handleC11 (j : J) : J :=
@@ -8,7 +10,14 @@ def handleC11 (j : J) : J :=
   | "build" =>
     let doc := Driver.docOfJson j
     let add := (j.arrD "additional").map Driver.typeOfJson
-    match build doc (j.boolD "ignore_extensions") add with
+    match buildA doc (j.boolD "ignore_extensions") add with
+    | .ok s => .obj [("ok", Driver.schemaToJson s)]
+    | .error e => .obj [("err", Driver.errToJson e)]
+  | "build_p" =>
+    -- the same with the builder's real bookkeeping of types in progress (PyGqlModel/SdlInProgress.lean)
+    let doc := Driver.docOfJson j
+    let add := (j.arrD "additional").map Driver.typeOfJson
+    match buildP doc (j.boolD "ignore_extensions") add with
     | .ok s => .obj [("ok", Driver.schemaToJson s)]
     | .error e => .obj [("err", Driver.errToJson e)]
   | "extend" =>
